@@ -164,7 +164,14 @@ class Epoch:
                 ids = [i for i, d in sl['objd'].items() if d == act['f']]
                 gen.CTRL['raise'] = {'objs': ids}
             try:
-                out['value'] = self._tree(t, t.value)
+                v = t.value
+                try:
+                    out['value'] = self._tree(t, v)
+                except (FileNotFoundError, NotADirectoryError):
+                    if t.__class__._vspec['kind'] in ('lazy', 'dir', 'continues') and not t.has_data:
+                        out['value'] = 'dangling'   # a held reference to a result another chain has deleted
+                    else:
+                        raise
             except gen.InjectedFailure:
                 out['err'] = 'injected'
             finally:
@@ -216,7 +223,7 @@ class Epoch:
         if act['name'] == 'Request' and not exp['lasterr'] and not out['err']:
             sl = self.slots[act['s']]
             d = m.did[(sl['rcs'][act['m'] - 1], act['n'])]
-            if out['value'] != m.ref(d):
+            if out['value'] != m.ref(d) and not (out['value'] == 'dangling' and exp['disk'][m.keyof[d] - 1] == 0):
                 mm.append(('value', f"request of {act['n']} in {sl['rcs'][act['m'] - 1]} returned {out['value']!r}, "
                                     f"reference value is {m.ref(d)!r}"))
         if out.get('tasknames') and out['tasknames'] != out['standalone']:
@@ -251,7 +258,10 @@ class Epoch:
                     data = getattr(t, '_data', None)
                     held_real = data is not None and getattr(data, '_value', None) is not None
                     held_exp = es['held'][d - 1] != 0
-                    if held_real:
+                    # values of these kinds are REFERENCES to storage (a directory path, a reader of the stored file):
+                    # once another chain has deleted the result they cannot be followed - not a foreign value
+                    dangling = kind in ('lazy', 'dir', 'continues') and exp['disk'][m.keyof[d] - 1] == 0
+                    if held_real and not dangling:
                         try:
                             tree = self._tree(t, data.value)
                         except Exception as e:  # noqa
